@@ -79,6 +79,23 @@ func classifyPath(p *Path, classify classifyFn) pathRow {
 	row := pathRow{P: p, Atoms: map[string]bool{}}
 	for _, d := range p.Decisions {
 		cond, neg := stripNot(d.Cond)
+		// a branch on a boolean phi (`flag := a > b` on one arm, `a < b` on the other): use the value selected on this path
+		for i := 0; i < 3; i++ {
+			phi, ok := cond.(*ssa.Phi)
+			if !ok {
+				break
+			}
+			e := p.PhiEdgeAt(phi, d.At)
+			if e == nil {
+				break
+			}
+			if _, isConst := e.(*ssa.Const); isConst {
+				break
+			}
+			var n2 bool
+			cond, n2 = stripNot(e)
+			neg = neg != n2
+		}
 		name, inv := classify(cond)
 		if name == "" {
 			row.Unknown++
